@@ -1,4 +1,4 @@
-package main
+package core
 
 import (
 	"crypto/sha1"
@@ -27,8 +27,6 @@ type Driver struct {
 	ShardSize int
 }
 
-var drivers = map[string]*Driver{}
-
 type nativeViolation struct {
 	Index int         `json:"index"`
 	What  string      `json:"what"`
@@ -53,15 +51,16 @@ type Ctx struct {
 	Rng    *rand.Rand
 	drv    *Driver
 
-	next     int
-	cases    []caseRec
-	classes  map[string]int
-	distinct map[string]struct{}
-	native   []nativeViolation
-	known    []string
-	stats    map[string]int
-	notes    []string
+	next         int
+	cases        []caseRec
+	classes      map[string]int
+	distinct     map[string]struct{}
+	native       []nativeViolation
+	known        []string
+	stats        map[string]int
+	notes        []string
 	nativeChecks int
+	knownSeen    []map[string]interface{}
 }
 
 func newCtx(prop string, seed int64, tier, out string, only int, corpus string, d *Driver) *Ctx {
@@ -115,13 +114,21 @@ func (c *Ctx) Native(what string, input interface{}) {
 	c.native = append(c.native, nativeViolation{c.next, what, input})
 }
 
+// KnownFindingProbe records that a probe for a specific, already recorded
+// finding (key as in /verif/known_findings.txt, "known: property=.. key=<key> ..")
+// still reproduces. bin/check prints KNOWN-FINDING for listed keys and reports
+// a VIOLATION for keys that are not listed.
+func (c *Ctx) KnownFindingProbe(key, what string, input interface{}) {
+	c.knownSeen = append(c.knownSeen, map[string]interface{}{"key": key, "what": what, "input": input})
+}
+
 // NativeCheck counts a Go-side oracle evaluation that passed.
 func (c *Ctx) NativeCheck(n int) { c.nativeChecks += n }
 
 // Stat bumps a named counter of the input distribution.
-func (c *Ctx) Stat(k string) { c.stats[k]++ }
+func (c *Ctx) Stat(k string)         { c.stats[k]++ }
 func (c *Ctx) StatN(k string, n int) { c.stats[k] += n }
-func (c *Ctx) Note(s string)  { c.notes = append(c.notes, s) }
+func (c *Ctx) Note(s string)         { c.notes = append(c.notes, s) }
 
 // Guard runs f and converts a panic into (true, stack).
 func Guard(f func()) (panicked bool, msg string) {
@@ -195,7 +202,7 @@ func (c *Ctx) finish() error {
 		"property": c.Prop, "seed": c.Seed, "tier": c.Tier,
 		"evaluations": len(c.cases), "distinct": len(c.distinct),
 		"classes": c.classes, "stats": c.stats, "files": files,
-		"native_violations": c.native, "native_checks": c.nativeChecks,
+		"native_violations": c.native, "known_findings_seen": c.knownSeen, "native_checks": c.nativeChecks,
 		"notes": c.notes, "sample_indices": sampleIdx,
 	}
 	mb, _ := json.MarshalIndent(meta, "", " ")
